@@ -186,7 +186,7 @@ QExpect == \E s \in {"A", "B"} : Filled(s) /\ ~Infinite(cfg) /\ \E st \in StateC
              num2 |-> VInner(v, MVec(Get(s).m, Hv))], A, B)
 
 \* O|v>: the vector every apply method has to reproduce (up to its reported truncation error)
-ApplyStates(c) == {<<<<5 % D(c), GOne>>>>, <<<<2, GOne>>>>, <<<<0, GOne>>, <<D(c) - 1, GOne>>>>,
+ApplyStates(c) == {<<<<2, GOne>>>>, <<<<0, GOne>>, <<D(c) - 1, GOne>>>>,
                    <<<<1, GOne>>, <<2, <<0, 2>>>>, <<4 % D(c), <<-1, 0>>>>>>}
 \* compression methods with the option combine (legs combined into pipes inside the sweep engine: must not matter)
 ApplyMethods == {<<"naive", FALSE>>, <<"SVD", FALSE>>, <<"zip_up", FALSE>>, <<"variational", FALSE>>, <<"variational", TRUE>>,
